@@ -211,7 +211,6 @@ Qed.
 
 (* SRenameColumn *)
 Lemma sum_rencol_spec : forall (sm : summary) t old new,
-  sum_nodeltas O sm ->
   let sm' := sum_apply O sm (SRenameColumn O t old new) in
   (forall t', tab_created sm' t' = tab_created sm t') /\
   (forall t' c, col_created sm' t' c =
@@ -221,7 +220,7 @@ Lemma sum_rencol_spec : forall (sm : summary) t old new,
   (forall t' r, row_after sm' t' r = row_after sm t' r) /\
   (forall t', td_find O (sm_tables O sm') t' <> None <-> (t' = t \/ td_find O (sm_tables O sm) t' <> None)).
 Proof.
-  intros sm t old new Hnd sm'. unfold sm'. cbn [sum_apply]. repeat split.
+  intros sm t old new sm'. unfold sm'. cbn [sum_apply]. repeat split.
   - intros t' c. unfold col_created at 1. rewrite td_find_with_table. name_cases t' t; reflexivity.
   - intros t' r. unfold row_before at 1. rewrite td_find_with_table. name_cases t' t; [|reflexivity].
     subst t'. cbn [td_before]. apply for_table_before.
@@ -283,12 +282,12 @@ Proof. reflexivity. Qed.
 (* the cells of the document BEFORE a doc action that the summary AFTER it would treat as created (seen through the
    undo of the action) were already treated as created before *)
 Lemma sig_step : forall a s s' u ops sm,
-  names_ok s -> keys_ok s sm -> sum_nodeltas O sm ->
+  names_ok s -> keys_ok s sm ->
   apply_doc O a s = Ok (s', (u, ops)) -> (forall t c r, ~ lossy O a s t c r) -> act_names_ok a ->
   forall t c r, existing s t c r ->
     img_list O (rev u) (created (fold_left (sum_apply O) ops sm)) t c r -> created sm t c r.
 Proof.
-  intros a s s' u ops sm Hnames Hkeys Hnd H Hloss Hact t0 c0 r0 [T0 [C0 [Hft0 [Hfc0 Hr0]]]].
+  intros a s s' u ops sm Hnames Hkeys H Hloss Hact t0 c0 r0 [T0 [C0 [Hft0 [Hfc0 Hr0]]]].
   destruct (Hnames _ _ Hft0) as [Hndt0 Hndc0]. specialize (Hndc0 _ _ Hfc0).
   destruct a; unfold apply_doc in H.
   - (* BulkAddRecord *)
@@ -337,7 +336,7 @@ Proof.
     destruct (has_column O T c) eqn:Eh; [discriminate|]. inversion H; subst s' u ops; clear H.
     apply has_column_false in Eh. destruct Eh as [_ Hcn].
     cbn [rev app img_list img fold_left].
-    pose proof (sum_rencol_spec sm t None c Hnd) as [Ht [Hc [Hb _]]]. cbv zeta in Ht, Hc, Hb.
+    pose proof (sum_rencol_spec sm t None c) as [Ht [Hc [Hb _]]]. cbv zeta in Ht, Hc, Hb.
     rewrite !created_iff. rewrite Ht, Hc, Hb. intros [Hx|[Hx|Hx]]; [tauto | | tauto]. right. left.
     name_cases t0 t; [|exact Hx]. subst t0. assert (T0 = T) by congruence. subst T0.
     rewrite ren_is_created_get, ren_get_add_rename_new in Hx.
@@ -353,7 +352,7 @@ Proof.
         + exfalso. apply (Hloss t c 0). cbn. split; [reflexivity|]. split; [reflexivity|]. exists T, C. auto.
         + inversion H; subst. split; reflexivity. }
     destruct Hops as [-> Himg]. rewrite Himg. cbn [fold_left].
-    pose proof (sum_rencol_spec sm t (Some c) (defunct_name c) Hnd) as [Ht [Hc [Hb _]]]. cbv zeta in Ht, Hc, Hb.
+    pose proof (sum_rencol_spec sm t (Some c) (defunct_name c)) as [Ht [Hc [Hb _]]]. cbv zeta in Ht, Hc, Hb.
     rewrite !created_iff. rewrite Ht, Hc, Hb. intros [Hx|[Hx|Hx]]; [tauto | | tauto]. right. left.
     name_cases t0 t; [|exact Hx]. subst t0.
     rewrite ren_is_created_get, ren_get_add_rename_new in Hx.
@@ -367,7 +366,7 @@ Proof.
     destruct (has_column O T new) eqn:Eh; [discriminate|]. inversion H; subst s' u ops; clear H.
     apply has_column_false in Eh. destruct Eh as [_ Hcn].
     cbn [rev app img_list img fold_left].
-    pose proof (sum_rencol_spec sm t (Some old) new Hnd) as [Ht [Hc [Hb _]]]. cbv zeta in Ht, Hc, Hb.
+    pose proof (sum_rencol_spec sm t (Some old) new) as [Ht [Hc [Hb _]]]. cbv zeta in Ht, Hc, Hb.
     intros [[-> [-> Hx]]|[Hne Hx]].
     + (* the cell is (t, old): seen as (t, new) afterwards *)
       revert Hx. rewrite !created_iff. rewrite Ht, Hc, Hb, name_eqb_refl. intros [Hx|[Hx|Hx]]; [tauto | | tauto]. right. left.
@@ -457,11 +456,11 @@ Lemma alive_put2 : forall s t T rows cols t0, find_table O s t = Some T ->
 Proof. intros. eapply alive_put; [eassumption|]. cbn. eapply find_table_id. eassumption. Qed.
 
 Lemma struct_step : forall a s s' u ops sm,
-  struct_ok s sm -> sum_nodeltas O sm ->
+  struct_ok s sm ->
   apply_doc O a s = Ok (s', (u, ops)) -> (forall t c r, ~ lossy O a s t c r) -> act_names_ok a ->
   struct_ok s' (fold_left (sum_apply O) ops sm).
 Proof.
-  intros a s s' u ops sm [Hnames [Hkeys Hafter]] Hnd H Hloss Hact.
+  intros a s s' u ops sm [Hnames [Hkeys Hafter]] H Hloss Hact.
   destruct a; unfold apply_doc in H.
   - (* BulkAddRecord *)
     destruct (find_table O s t) as [T|] eqn:Ef; [|discriminate].
@@ -564,7 +563,7 @@ Proof.
     destruct (find_table O s t) as [T|] eqn:Ef; [|discriminate].
     destruct (has_column O T c) eqn:Eh; [discriminate|]. inversion H; subst s' u ops; clear H. cbn [fold_left].
     pose proof (find_table_id O _ _ _ Ef) as HidT.
-    pose proof (sum_rencol_spec sm t None c Hnd) as [_ [_ [_ [Ha Hk]]]]. cbv zeta in Ha, Hk.
+    pose proof (sum_rencol_spec sm t None c) as [_ [_ [_ [Ha Hk]]]]. cbv zeta in Ha, Hk.
     split; [|split].
     + eapply names_ok_put; try eassumption; try reflexivity. cbn [t_cols]. intros c1 C1 Hc. rewrite find_app_col in Hc.
       destruct (find_col O (t_cols O T) c1) as [C2|] eqn:E1; [apply (proj2 (Hnames _ _ Ef) _ _ E1)|].
@@ -586,7 +585,7 @@ Proof.
         + inversion H; subst. split; reflexivity. }
     destruct Hops as [-> ->]. cbn [fold_left].
     pose proof (find_table_id O _ _ _ Ef) as HidT.
-    pose proof (sum_rencol_spec sm t (Some c) (defunct_name c) Hnd) as [_ [_ [_ [Ha Hk]]]]. cbv zeta in Ha, Hk.
+    pose proof (sum_rencol_spec sm t (Some c) (defunct_name c)) as [_ [_ [_ [Ha Hk]]]]. cbv zeta in Ha, Hk.
     split; [|split].
     + eapply names_ok_put; try eassumption; try reflexivity. cbn [t_cols]. intros c1 C1 Hc. rewrite find_drop_col in Hc.
       destruct (name_eqb c1 c); [discriminate|]. apply (proj2 (Hnames _ _ Ef) _ _ Hc).
@@ -600,7 +599,7 @@ Proof.
     destruct (find_col O (t_cols O T) old) as [C|] eqn:Ec; [|discriminate].
     destruct (has_column O T new) eqn:Eh; [discriminate|]. inversion H; subst s' u ops; clear H. cbn [fold_left].
     pose proof (find_table_id O _ _ _ Ef) as HidT.
-    pose proof (sum_rencol_spec sm t (Some old) new Hnd) as [_ [_ [_ [Ha Hk]]]]. cbv zeta in Ha, Hk.
+    pose proof (sum_rencol_spec sm t (Some old) new) as [_ [_ [_ [Ha Hk]]]]. cbv zeta in Ha, Hk.
     split; [|split].
     + eapply names_ok_put; try eassumption; try reflexivity. cbn [t_cols]. intros c1 C1 Hc. rewrite find_app_col, find_drop_col in Hc.
       destruct (name_eqb c1 old).
@@ -717,11 +716,11 @@ Proof.
 Qed.
 
 Lemma tr_step : forall a s0 s s' U u ops sm,
-  tr_ok s0 s U sm -> wf_state O s -> struct_ok s sm -> sum_nodeltas O sm ->
+  tr_ok s0 s U sm -> wf_state O s -> struct_ok s sm ->
   apply_doc O a s = Ok (s', (u, ops)) -> (forall t c r, ~ lossy O a s t c r) -> act_names_ok a ->
   tr_ok s0 s' (U ++ u) (fold_left (sum_apply O) ops sm).
 Proof.
-  intros a s0 s s' U u ops sm Htr Hwf [Hnames [Hkeys _]] Hnd Ha Hloss Hact s1 Hs1.
+  intros a s0 s s' U u ops sm Htr Hwf [Hnames [Hkeys _]] Ha Hloss Hact s1 Hs1.
   destruct (undo_inverse O L a s Hwf s' u ops Ha) as [s'' [Hrep Hseq]].
   apply (seq_ex_sym O L) in Hs1.
   destruct (replay_doc_cong O L _ _ _ _ _ Hs1 Hrep) as [sx [Hrepx Hseqx]].
